@@ -80,6 +80,9 @@ def pVal : P Val := do
       let o ← pNat
       let n ← pNat
       return .zset o (← rep n (do let m ← pBytes; let sc ← pFlt; pure (m, sc)))
+  | "A" => do
+      let n ← pNat
+      return .ilist (← rep n pBytes)
   | t => throw s!"bad value tag {t}"
 
 def pExp : P (Option Int) := do
